@@ -9,7 +9,8 @@ RULE = ("A case is (1-3 hosts answering the discovery probe with well-formed V2 
         "codec: 48-bit device id incl. boundary values, port 1..65535, 32-char serial number, name net_<type>_<suffix> "
         "with every appliance type byte in either letter case, reported IP equal to or different from the source, "
         "reply from source port 6445 or another; Discover.discover(auto_connect=False) broadcast or "
-        "discover_single(host); discovery_packets 1..4). Each host answers only a probe that the reference codec "
+        "discover_single(host) by address or by a host name that resolves to it; suffixes with further underscores, "
+        "dashes, spaces; discovery_packets 1..4). Each host answers only a probe that the reference codec "
         "verifies as the well-formed signed probe, and records to which ports and how often it was sent. Part "
         "'type_bytes' enumerates all 256 appliance type bytes x 2 letter cases x 2 versions; 'random' draws the rest. "
         "Distinct = distinct plan; non-trivial = every case.")
@@ -54,7 +55,13 @@ def run(plan):
         npk = plan.get("packets", 3)
         if plan.get("single"):
             target = plan["single"]
-            o = await capture(w, D.discover_single(target, auto_connect=auto, discovery_packets=npk))
+            name = target
+            if plan.get("by_name") and target in hosts:
+                # discover_single() takes "hostname or IP": the probe goes to a name, the reply comes from its address
+                name = "ac-" + target.replace(".", "-") + ".lan"
+                w.net.dns[name] = target
+                w.fire("target_by_host_name")
+            o = await capture(w, D.discover_single(name, auto_connect=auto, discovery_packets=npk))
             if o.kind != "ok":
                 res.fail(f"discover_single raised {o.exc_type}", repr(o.exc))
                 return
@@ -142,6 +149,8 @@ def rand_host(rng, idx, type_byte=None, upper=None, version=None):
     upper = rng.random() < 0.5 if upper is None else upper
     ts = f"{t:02X}" if upper else f"{t:02x}"
     suffix = "".join(rng.choice("0123456789ABCDEF") for _ in range(rng.choice([4, 4, 1, 8])))
+    if rng.random() < 0.15:
+        suffix += rng.choice(["_2", "_", "_living_room", "__x", "-1", " 2", "."])
     return {
         "ip": ip, "inner_ip": ip if rng.random() < 0.6 else f"10.{rng.randrange(256)}.{rng.randrange(256)}.{rng.randrange(1, 255)}",
         "version": rng.choice([2, 3]) if version is None else version,
@@ -172,6 +181,7 @@ def space(tier):
         r = rng.random()
         if r < 0.3:
             p["single"] = rng.choice(hosts)["ip"]
+            p["by_name"] = rng.random() < 0.3
         elif r < 0.35:
             p["single"] = "192.168.250.250"       # nobody there
         if rng.random() < 0.25:
@@ -185,7 +195,7 @@ def space(tier):
                 h["version"] = 2
                 h["tcp"] = rng.choice(["ok", "ok", "slow", "silent", "refused", "hang"])
                 if rng.random() < 0.8:
-                    h["name"] = "net_" + rng.choice(["ac", "AC"]) + "_" + h["name"].split("_")[2]
+                    h["name"] = "net_" + rng.choice(["ac", "AC"]) + "_" + h["name"].split("_", 2)[2]
         return p
     sp.add("random", 12000 if tier == "quick" else 1_500_000, rnd)
     return sp
